@@ -14,7 +14,23 @@ class SameID:
     self._set_existing_field("items", self.get("items") + cur_items, 
                             set_reference = True)
     self._import_tags_of_previous_group_definition(previous)
+    self._detach_previous_group_definition(previous)
     return None
+
+  def _detach_previous_group_definition(self, previous):
+    # the previous line is not a line of the Gfa any more: it becomes a
+    # disconnected line again (with its own items, referred to by name)
+    items = []
+    for item in previous.get("items"):
+      if isinstance(item, gfapy.OrientedLine):
+        items.append(gfapy.OrientedLine(item.name, item.orient))
+      elif isinstance(item, gfapy.Line):
+        items.append(item.name)
+      else:
+        items.append(item)
+    previous._data["items"] = items
+    previous._refs = {}
+    previous._gfa = None
 
   def _check_tags_of_previous_group_definition(self, previous):
     for tag in previous.tagnames:
